@@ -93,6 +93,10 @@ pub fn run_c01p(args: &Args) -> Report {
     for (r, (before, cfg, cmds, src, first, outcome, obs)) in resp.iter().zip(pend.iter()) {
         rep.evaluations += 1;
         let mut diffs: Vec<String> = vec![];
+        if r.starts_with("vocab ") {
+            rep.count("skipped:model-met-a-command-outside-the-vocabulary");
+            continue;
+        }
         match r.split_once(' ') {
             None => diffs.push(format!("model driver could not evaluate: {r}")),
             Some((mo, rest)) => {
